@@ -86,6 +86,8 @@ func init() {
 		"verifPeekString": func(in *Interp, fn *ssa.Function, a []Value) Value { return mkStr("") },
 		"jsonBlobAs":      pJSONBlobAs,
 		"guardOff":        func(in *Interp, fn *ssa.Function, a []Value) Value { in.guardsOff = true; return nil },
+		"jsonBlobKeys":   pJSONBlobKeys,
+		"blobClearTerms": pBlobClearTerms,
 		"noteTrace":    func(in *Interp, fn *ssa.Function, a []Value) Value { in.trace = append(in.trace, tagOf(a[0])); return nil },
 	}
 }
@@ -830,4 +832,88 @@ func pJSONBlobAs(in *Interp, fn *ssa.Function, a []Value) Value {
 	pt := fn.Params[1].Type().(*types.Pointer)
 	err := in.jsonUnmarshal(s, Iface{T: pt, V: a[1]})
 	return mkBool(isNilValue(err))
+}
+
+func pJSONBlobKeys(in *Interp, fn *ssa.Function, a []Value) Value {
+	s := a[0].(Slice)
+	if s.Seq == nil || s.Seq.Blob == nil || s.Seq.Blob.Kind != "JSON" {
+		return mkStr("?")
+	}
+	t := s.Seq.Blob.Type
+	if p, ok := t.Underlying().(*types.Pointer); ok {
+		t = p.Elem()
+	}
+	st, ok := t.Underlying().(*types.Struct)
+	if !ok {
+		return mkStr("?")
+	}
+	fs, e := jsonFields(st)
+	if e != "" {
+		return mkStr("?" + e)
+	}
+	var ks []string
+	for _, f := range fs {
+		ks = append(ks, f.key)
+	}
+	sort.Strings(ks)
+	return mkStr(strings.Join(ks, ","))
+}
+
+// blobClearTerms counts symbolic string/bytes terms reachable in a document without crossing an AEAD node.
+func pBlobClearTerms(in *Interp, fn *ssa.Function, a []Value) Value {
+	n := 0
+	var walk func(v Value, d int)
+	walk = func(v Value, d int) {
+		if d > 20 {
+			return
+		}
+		switch x := v.(type) {
+		case Term:
+			if x.S == SStr && !x.C {
+				n++
+			}
+		case Struct:
+			for _, f := range x {
+				walk(f, d+1)
+			}
+		case Array:
+			for _, f := range x {
+				walk(f, d+1)
+			}
+		case *Value:
+			if x != nil {
+				walk(*x, d+1)
+			}
+		case Iface:
+			walk(x.V, d+1)
+		case *MapObj:
+			if x != nil {
+				for _, s := range x.Slots {
+					walk(s.K, d+1)
+					walk(s.V, d+1)
+				}
+			}
+		case Slice:
+			if x.Seq != nil {
+				if x.Seq.Blob != nil {
+					if x.Seq.Blob.Kind == "AEAD" {
+						return
+					}
+					for _, p := range x.Seq.Blob.Parts {
+						walk(p, d+1)
+					}
+					return
+				}
+				if !x.Seq.T.C {
+					n++
+				}
+				return
+			}
+			for _, e := range x.A {
+				walk(e, d+1)
+			}
+		}
+	}
+	walk(a[0], 0)
+	return mkBV(64, uint64(n))
 }
